@@ -183,10 +183,10 @@ def _maybe_restart(rng, out, p=6):
     return False
 
 
-def scenario(rng):
+def scenario(rng, idx=None):
     """one short history aimed at a clause of the properties, with its parameters drawn at random; restarts are sprinkled in so
     that the same clause is also exercised on a reloaded topic"""
-    k = rng.below(16)
+    k = rng.below(16) if idx is None else idx % 16          # the stream goes through the kinds in turn
     if k >= 14:
         return scenario_chan(rng)
     if k >= 11:
@@ -339,7 +339,7 @@ def scenario_chan(rng):
         n[0] += 1
         out.append(f"pub {s} {T} C{n[0]}" + rng.choice(["", "", " noecho=1", " head=mime:text"]))
 
-    out.append(f"setsub {owner} {T} user={sub_u} mode={rng.choice(['JRWPS', 'JRWP', 'JRW', 'JR'])}")
+    out.append(f"setsub {owner} {T} user={sub_u} mode={rng.choice(['JRWPS', 'JRWP', 'JRW', 'JR', 'JWP', 'JW'])}")
     out.append(f"sub {sub_s} {T}")
     for s, u in rd:
         if rng.chance(2, 3):
@@ -350,6 +350,8 @@ def scenario_chan(rng):
              lambda: out.append(f"note {rng.choice([owner, sub_s])} {T} {rng.choice(['read', 'recv', 'kp'])} {rng.choice([0, max(1, n[0])])}"),
              lambda: out.append(f"get {rng.choice(['S2', 'S3', 'S5', 'S7'])} {C} {rng.choice(['data', 'desc', 'sub', 'del'])}"),
              lambda: out.append(f"get {rng.choice([owner, sub_s])} {T} {rng.choice(['data', 'desc', 'sub'])}"),
+             lambda: out.append(f"get {sub_s} {C} {rng.choice(['data', 'data', 'del', 'desc'])}"),      # a subscriber under the channel spelling
+             lambda: out.append(f"get {rng.choice(['S2', 'S3'])} {T} data"),                               # a reader under the group spelling
              lambda: out.append(f"leave {rng.choice(['S2', 'S3', 'S5', 'S7'])} {C}" + rng.choice(["", "", " unsub=1"])),
              lambda: out.append(f"sub {rng.choice(['S2', 'S3', 'S5', 'S7'])} {C}" + rng.choice(["", " mode=JR", " priv=pvS"])),
              lambda: out.append(rng.choice(["fg S5", "drop S5", "drop S3", "drop S2"])),
@@ -467,7 +469,7 @@ def gen_world(rng, tier):
     ncases = 600 if tier == "thorough" else 420
     for i in range(ncases):
         if i % 3 == 2:
-            for l in scenario(rng):
+            for l in scenario(rng, i // 3):
                 yield l
             continue
         c = i // 3 * 2 + i % 3          # index among the random cases
